@@ -631,7 +631,7 @@ func xFixed() []struct {
 
 func init() {
 	families["structobj"] = &Family{
-		Gen: func(r *Rng, tier string, emit func(*sx.Node)) {
+		Gen: withProfile(genProfile{edgeInts: true, utf8Strings: true, anyDeep: true}, func(r *Rng, tier string, emit func(*sx.Node)) {
 			xemit := func(s *sx.Node, ops []*sx.Node) {
 				annotateX(s)
 				for i := 0; i < len(ops); i += 40 {
@@ -703,7 +703,7 @@ func init() {
 				}
 				xemit(s, ops)
 			}
-		},
+		}),
 		Run: runXSchemaCase,
 	}
 }
